@@ -48,7 +48,8 @@ type refCase struct {
 	Init     string   `json:"init"` // name of the initial state
 	A        opJ      `json:"a"`
 	B        *opJ     `json:"b,omitempty"`
-	K        int      `json:"k"` // A is parked before its k-th labelled call
+	K        int      `json:"k"`                // A is parked before its k-th labelled call
+	Cancel   string   `json:"cancel,omitempty"` // fault cases: the CALLER\'s context is cancelled ("cancel") or its deadline expires ("deadline") right before the call at fault_pc
 	Ops      []opJ    `json:"ops,omitempty"`
 	States   []rstJ   `json:"states,omitempty"`
 	OKs      []bool   `json:"oks,omitempty"`
@@ -73,7 +74,8 @@ type refRig struct {
 	next int
 }
 
-func (r *refRig) name(s string) string { return s + r.tag }
+// the tag is a PREFIX so that prefix relations between names (n1 / n10) survive
+func (r *refRig) name(s string) string { return r.tag + s }
 
 func newRefRig(t *testing.T, tag string) *refRig {
 	cl := ckit.NewCluster(t, ckit.Options{LockTimeout: 3 * time.Second})
@@ -113,8 +115,10 @@ func (r *refRig) setup(init string) {
 }
 
 // run executes one operation through the cluster API; true = it reported success.
-func (r *refRig) run(o opJ) bool {
-	cl, ctx := r.cl, r.cl.Ctx()
+func (r *refRig) run(o opJ) bool { return r.runCtx(r.cl.Ctx(), o) }
+
+func (r *refRig) runCtx(ctx context.Context, o opJ) bool {
+	cl := r.cl
 	switch o.Op {
 	case "addPod":
 		_, err := cl.C.AddPod(ctx, r.name(o.Pod), "")
@@ -171,7 +175,7 @@ func (r *refRig) run(o opJ) bool {
 func (r *refRig) state() rstJ {
 	cl := r.cl
 	cl.Quiesce()
-	strip := func(s string) string { return strings.TrimSuffix(s, r.tag) }
+	strip := func(s string) string { return strings.TrimPrefix(s, r.tag) }
 	snap := cl.Snapshot()
 	st := rstJ{Pods: []string{}, Nodes: [][2]string{}, Res: []string{}, Wls: []wlRef{}}
 	for _, p := range snap.Pods {
@@ -384,6 +388,54 @@ func genRef(t *testing.T, out *hx.Out, budget int) {
 			rig.cl.Close()
 		}
 	}
+	// AddNode whose caller goes away (cancel / deadline expiry) right after the plugin step: the store
+	// step fails, the rollback must still remove the plugin record (it runs on a detached context)
+	for ci, how := range []string{"cancel", "deadline"} {
+		for _, init := range []string{"pod", "node"} {
+			rig := newRefRig(t, fmt.Sprintf("x%d%s", ci, init))
+			rig.setup(init)
+			a := opJ{Op: "addNode", N: "n2", Pod: "p1"}
+			c := &refCase{ID: fmt.Sprintf("cancel-%s-%s", how, init), Kind: "fault", Init: init, A: a, FaultPC: 1, K: -1, Cancel: how, Pre: rig.state()}
+			ctx, cancel := context.WithCancel(rig.cl.Ctx())
+			if how == "deadline" {
+				ctx, cancel = context.WithTimeout(rig.cl.Ctx(), 400*time.Millisecond)
+			}
+			rig.g.arm(1) // park before the second labelled call: the store's GetPod, right after pluginAddNode
+			done := make(chan bool, 1)
+			go func() { done <- rig.runCtx(ctx, a) }()
+			select {
+			case <-rig.g.parked:
+				if how == "cancel" {
+					cancel()
+				} else {
+					<-ctx.Done()
+				}
+				rig.g.release()
+				c.OKA = <-done
+			case ok := <-done:
+				c.OKA = ok
+				c.FaultPC = -1
+			}
+			cancel()
+			rig.g.disarm()
+			c.Impl = rig.state()
+			c.ListOK = rig.listOK()
+			out.Emit(c)
+			rig.cl.Close()
+		}
+	}
+	// node names that coincide with pod names, and names that are prefixes of others (the etcd key space
+	// /node/<pod>:pod/<node> shares its prefix with /node/<node>:…): fixed histories, RefInv after every operation
+	for hi, ops := range [][]opJ{
+		{{Op: "addPod", Pod: "p1"}, {Op: "addPod", Pod: "p2"}, {Op: "addNode", N: "p2", Pod: "p1"}, {Op: "addNode", N: "n2", Pod: "p2"},
+			{Op: "removeNode", N: "p2"}, {Op: "removePod", Pod: "p2"}, {Op: "removePod", Pod: "p1"}},
+		{{Op: "addPod", Pod: "p1"}, {Op: "addNode", N: "n1", Pod: "p1"}, {Op: "addNode", N: "n10", Pod: "p1"}, {Op: "create", N: "n10", Pod: "p1", W: 1},
+			{Op: "removeNode", N: "n1"}, {Op: "removeNode", N: "n10"}, {Op: "remove", W: 1}, {Op: "removeNode", N: "n10"}, {Op: "removePod", Pod: "p1"}},
+		{{Op: "addPod", Pod: "p1"}, {Op: "addPod", Pod: "p10"}, {Op: "addNode", N: "p10", Pod: "p1"}, {Op: "addNode", N: "p1", Pod: "p10"},
+			{Op: "removeNode", N: "p1"}, {Op: "removePod", Pod: "p10"}, {Op: "removeNode", N: "p10"}, {Op: "removePod", Pod: "p1"}},
+	} {
+		runHist(t, out, ops, fmt.Sprintf("names-%d", hi), fmt.Sprintf("m%d", hi))
+	}
 	{
 		rig := newRefRig(t, "t3")
 		rig.setup("node")
@@ -463,8 +515,8 @@ func genHist(t *testing.T, out *hx.Out, count int) {
 		nextW := 1
 		ws := map[string][]int{}
 		for i, n := 0, r.Range(4, 9); i < n; i++ {
-			nd := hx.Pick(r, "n1", "n2")
-			pod := map[string]string{"n1": "p1", "n2": "p2"}[nd]
+			nd := hx.Pick(r, "n1", "n2", "n1", "n2", "p2", "n10")
+			pod := map[string]string{"n1": "p1", "n2": "p2", "p2": "p1", "n10": "p1"}[nd]
 			switch k := r.Intn(12); {
 			case k < 2:
 				ops = append(ops, opJ{Op: "addPod", Pod: hx.Pick(r, "p1", "p2")})
